@@ -36,7 +36,7 @@ Rust tests were run by hand). Seven m1/m2 patches had to be re-applied by hand a
 down as the monitors grew: 18 of 40 (round four), 11 of 40 (round five), about 17 of 40 (round six: 3 missed, 14 gaps
 closed after reading the descriptions but before the first run), 24 of 60 (round seven, first run made before any
 extension), about 19 of 40 (round eight: 8 missed, 11 gaps closed after reading the descriptions but before the first run), 15 of 40 (round nine,
-first run made before any extension), 17 of 40 (round eleven, first run made before any extension; one of them inconclusive, not missed: the
+first run made before any extension), 19 of 40 (round eleven, first run made before any extension; one of them inconclusive, not missed: the
 library's own accessor panicked inside the C19 worker). Each miss had the same cause: the workload did not drive the code concerned - another entry point (command
 line, Python binding, `ConfigBuilder`, file-based loading, the stateless tokenizer, the older split API, a named pipe),
 a rarely used option (debug mode, `enableNormalize: false`, reversed plugin order, no fallback provider, projections with
@@ -61,7 +61,12 @@ ended "inconclusive", so C18 got a progress monitor with a control thread (12.4,
 
 Result of the sweeps (`lib/sweep_seeded.sh` applies to /repo and reverts; `lib/sweep_alt.sh` uses a scratch worktree
 through `VERIF_REPO`, so that long runs against /repo are not disturbed): **%d of %d are detected by the quick check of
-the property they were written for.** The other nine:
+the property they were written for.** The other eleven:
+
+* C14-m20 - a malformed grouping joined up to the digit before its end (`1,00円` -> `1,0` = 100): the clauses of C14 hold
+  literally, the wrong value is C15's clause; detected by `./check C15`.
+* C14-m21 - a dictionary word that begins with katakana is swallowed into a katakana join: every clause of the statement
+  holds literally; which neighbours a plugin may merge is not stated: not claimed.
 
 * C02-m21 - a stale provider buffer that only matters for regex words of 64 and more characters next to dictionary words
   of that length; C02's texts have none; detected by `./check C13` (`oov_candidates`).
